@@ -94,12 +94,24 @@ def r16_2(run):
     for nm_ in ("window_shape", "step", "dilation"):
         pos = []
         for g_ in guards:
-            for ge in ast.walk(cfg.stmt[g_]):
+            gt = cfg.stmt[g_]
+            for ge in ast.walk(gt):
                 if isinstance(ge, ast.GeneratorExp) and norm(ge.generators[0].iter) == nm_ and isinstance(ge.generators[0].target, ast.Name):
                     v_ = ge.generators[0].target.id
+                    fn_ = getattr(ge, "_parent", None)
+                    quant = dotted(fn_.func) if isinstance(fn_, ast.Call) else None
+                    negated = isinstance(getattr(fn_, "_parent", None), ast.UnaryOp) and isinstance(fn_._parent.op, ast.Not)
                     for cmp_ in ast.walk(ge.elt):
-                        if isinstance(cmp_, ast.Compare) and len(cmp_.ops) == 1 and norm(cmp_) in (f"{v_} > 0", f"{v_} >= 1", f"0 < {v_}", f"1 <= {v_}"):
+                        if not (isinstance(cmp_, ast.Compare) and len(cmp_.ops) == 1):
+                            continue
+                        t_ = norm(cmp_)
+                        # raise unless all(... i > 0 ...)   |   raise if any(... i <= 0 ...)
+                        if quant == "all" and negated and t_ in (f"{v_} > 0", f"{v_} >= 1", f"0 < {v_}", f"1 <= {v_}"):
                             pos.append(g_)
+                        if quant == "any" and not negated and t_ in (f"{v_} <= 0", f"{v_} < 1", f"0 >= {v_}", f"1 > {v_}"):
+                            pos.append(g_)
+            if any(norm(x) in (f"min({nm_}) <= 0", f"min({nm_}) < 1", f"0 >= min({nm_})", f"1 > min({nm_})") for x in ast.walk(gt) if isinstance(x, ast.Compare)):
+                pos.append(g_)
         ok = any(g_ not in after and ns in nx.descendants(cfg.g, g_) for g_ in pos)
         run.ob("R16.5", loc(fi, cfg.stmt[pos[0]] if pos else fi.node), fi.short, f"every entry of `{nm_}` is tested strictly positive before the striding", ok,
                f"raising guard `{norm(cfg.stmt[pos[0]])[:60]}`" if ok else
